@@ -97,7 +97,7 @@ func main() {
 			fatal(fmt.Errorf("entry %s not found", e))
 		}
 		ex := &Explorer{prog: prog, mainPkg: mainPkg, entry: e, entryFn: fn, errorStringPtr: errStrPtr, timeType: timeType,
-			maxSteps: *maxSteps, maxDepth: 200, maxThreads: 8, maxAlloc: 1 << 16, maxConcretize: 300, defaultUnwind: *unwind,
+			maxSteps: *maxSteps, maxDepth: 200, maxThreads: 8, maxAlloc: 1 << 18, maxConcretize: 300, defaultUnwind: *unwind,
 			tier: *tier, noMerge: *noMerge, maxPaths: *maxPaths, solverKind: *solver, solverTimeout: *timeout,
 			initPkgs: map[string]bool{"io": true, "bufio": true, "bytes": true, "errors": true, "encoding/binary": true, mlPkg: true, "github.com/google/btree": true, "hash/crc32": false, "net": false}}
 		if *budget > 0 {
